@@ -617,7 +617,8 @@ func GetRecords(name string, typ recordtype.Type) []string {
 
 	ctx := storage.GetReadOnlyContext()
 	tokenID := []byte(tokenIDFromName(ctx, name))
-	_ = getFragmentedNameState(ctx, tokenID, fragments) // ensure not expired
+	// Fragments of the name can't be reused here: the token may be a parent of it.
+	_ = getFragmentedNameState(ctx, tokenID, nil) // ensure not expired
 	return getRecordsByType(ctx, tokenID, name, typ)
 }
 
@@ -668,7 +669,8 @@ func GetAllRecords(name string) iterator.Iterator {
 	}
 
 	ctx := storage.GetReadOnlyContext()
-	return getAllRecords(ctx, name, fragments)
+	// Fragments of the name can't be reused here: the token may be a parent of it.
+	return getAllRecords(ctx, name, nil)
 }
 
 // updateBalance updates account's balance and account's tokens.
